@@ -1,7 +1,7 @@
 #!/usr/bin/env python3
 """Re-runs the property checks against every kept seeded change (detection only).
 
-usage: seeded_recheck.py [--budget N] [--only C07-3,C10-1] [--jobs J]
+usage: seeded_recheck.py [--budget N] [--only C07-3,C10-1]   (run several instances with disjoint --only lists to use more cores)
 
 For each /verif/seeded/<prop>-<n>/: scratch copy of /repo's HEAD (outside /repo
 and /verif), apply patch.diff, run the quick check of the property that caught
